@@ -71,6 +71,10 @@ def dispatch (req : Sexp) : Sexp :=
   | .list (.atom "c01-body" :: args) => Driver.Sem.handleBody args
   | .list (.atom "spec-c13" :: args) => Driver.Sem.handleSpecC13 args
   | .list (.atom "c13-body" :: args) => Driver.Sem.handleBody13 args
+  | .list (.atom "f42-spec-c13" :: args) => Driver.Sem.handleSpecC13 args { argsFirst := true }
+  | .list (.atom "f41-spec-c13" :: args) => Driver.Sem.handleSpecC13 args { longConst := true }
+  | .list (.atom "f41-f42-spec-c13" :: args) => Driver.Sem.handleSpecC13 args { argsFirst := true, longConst := true }
+  | .list (.atom "f41-spec-c01" :: args) => Driver.Sem.handleSpecC01 args { longConst := true }
   | .list (.atom "c05-accept" :: args) => Driver.Typing.handleAccept args
   | .list (.atom "c05-reject" :: args) => Driver.Typing.handleReject args
   | .list (.atom "c05-ir" :: args) => Driver.Typing.handleIr args
